@@ -127,6 +127,21 @@
 #define DBG(X)
 #endif
 
+#if !defined FIX8_VERIF_TSAN_RELEASE
+#if defined FIX8_VERIF && defined __SANITIZE_THREAD__
+// Verification hook (ThreadSanitizer builds with FIX8_VERIF only): FastFlow synchronises with volatile accesses, CAS and compiler
+// barriers that ThreadSanitizer cannot see; the hand-over of a block (through the queue, or back to its allocator) is made visible
+// as a release / acquire pair on the block's address.  Calls only; nothing else changes.
+extern "C" void __tsan_acquire(void *addr);
+extern "C" void __tsan_release(void *addr);
+#define FIX8_VERIF_TSAN_RELEASE(p) __tsan_release((void *)(p))
+#define FIX8_VERIF_TSAN_ACQUIRE(p) __tsan_acquire((void *)(p))
+#else
+#define FIX8_VERIF_TSAN_RELEASE(p)
+#define FIX8_VERIF_TSAN_ACQUIRE(p)
+#endif
+#endif
+
 namespace ff {
 
     /*
@@ -1140,6 +1155,7 @@ namespace ff {
             DBG(if (entry<0) abort());
             ALLSTATS(all_stats::instance()->nmalloc.fetch_add(1));
             void * buf = slabcache[entry]->getitem();
+            FIX8_VERIF_TSAN_ACQUIRE(buf);
             return buf;
         }
 
@@ -1691,6 +1707,7 @@ namespace ff {
          */
         inline void   free(void * ptr) {
             if (!ptr) return;
+            FIX8_VERIF_TSAN_RELEASE(ptr);
 
             Buf_ctl  * buf = (Buf_ctl *)((char *)ptr - sizeof(Buf_ctl));
             if (!buf->ptr) {
